@@ -265,10 +265,14 @@ func ddp_string_empty [C12]
   modifies nothing
   ensures wfStr(str) ==> (result <==> str.cap <= 1)
 
-func ddp_strlen [C12]
-  requires str != nil ==> wfStr(str)
+// a Text as the tolerant parts of the runtime accept it: (NULL, anything) or a block of cap bytes holding a C string
+spec tolStr(s *ddpstring) bool :=
+  s != nil && (s.str.B != nil ==> s.str.O == 0 && s.cap == s.str.B.$n && (exists n int :: n < s.cap && nulAt(s.str, n)))
+func ddp_strlen [C12, C05]
+  requires str != nil ==> tolStr(str)
   modifies nothing
-  ensures str == nil || str.str.B == nil ? result == 0 : result == str.cap - 1
+  ensures str == nil || str.str.B == nil ==> result == 0
+  ensures forall n int :: str != nil && str.str.B != nil && nulAt(str.str, n) ==> result == n
 
 func ddp_string_length [C12]
   requires wfStr(str)
@@ -298,6 +302,11 @@ func ddp_string_equal [C12]
   modifies nothing
   // equal exactly when the byte sequences (hence the code point sequences) are equal
   ensures result <==> (str1.cap == str2.cap && (forall k int :: 0 <= k && k < str1.cap - 1 ==> byteAt(str1.str, k) == byteAt(str2.str, k)))
+// ... and it stays inside both blocks for every Text the rest of the runtime tolerates (an empty Text need not be
+// the canonical (NULL, 0): conversions of invalid characters produce one byte blocks)
+func ddp_string_equal#2 [C05, C12]
+  requires tolStr(str1) && tolStr(str2)
+  modifies nothing
 
 // number of bytes of a Text without the terminator
 spec lenB(s *ddpstring) int := s.str.B == nil ? 0 : s.cap - 1
